@@ -16,7 +16,9 @@ Mutations caught by the fault / attribute extension (each exit 1, unchanged tree
   Client.Subscribe skips onSubscribeErrorGen when subscribeCmd fails (AddPresence error)    -> C04 subscribed=false,routing=true
   dissolver job returns nil when Broker.Unsubscribe failed (no retry)                       -> C26 broker=true,local=false
   Dissolver.runWorker re-adds a failed job from a timer that reads the worker's reused job variable (seed C26-3)
-                                                                                            -> C26 broker-sub-without-local-interest:after-failed-unsubscribe (jobretryprobe)"""
+                                                                                            -> C26 broker-sub-without-local-interest:after-failed-unsubscribe (jobretryprobe)
+  subscribeCmd's deferred presence rollback runs only for disconnects, not for error replies (seed C06-3): positioned
+  client-side subscribe whose Broker.History answers a client error after AddPresence     -> C06 subscribed=false,presence=true"""
 from lib import vf
 
 
@@ -87,6 +89,7 @@ def _run(c, prop):
                      'non-trivial = complete behaviour ending quiescent with all monitors evaluated, distinct by (ops, step list)')
     c.assumptions += ['one connection, one channel, presence and join/leave enabled, non-positioned subscription',
                       'the 5 s unsubscribe wait-gate timeout and Broker.Subscribe failures are not modelled',
+                      'a positioned client-side subscription (model variable positioned) is explored only together with the Broker.History fault: the failing stream-top read answers ErrorUnrecoverablePosition (error reply after AddPresence)',
                       'a failing AddPresence / PublishJoin / PublishLeave / Broker.Unsubscribe has no effect in the backend, a failing RemovePresence removed the entry and lost its reply; at most one failing round trip per behaviour',
                       'dissolver jobs are replayed only after all threads finished (1 s delay cannot be scheduled); arbitrary job timing is explored by TLC only',
                       'a close spawned by a failing subscribe is replayed as starting immediately']
@@ -117,7 +120,9 @@ WITNESSES = [('W_TickAfterResubscribe', 'WOps1'), ('W_LeaveBeforeJoin', 'WOps2')
              ('W_LeaveFailsCU', 'WOpsC', {'Faults': 'F_Leave'}), ('W_LeaveFailsSU', 'WOpsD', {'Faults': 'F_Leave'}),
              ('W_LeaveFailsCL', 'WOpsE', {'Faults': 'F_Leave'}), ('W_RemPresFailsCU', 'WOpsC', {'Faults': 'F_RemP'}),
              ('W_AddPresFailsCS', 'WOpsF', {'Faults': 'F_AddP'}), ('W_AddPresFailsSS', 'WOpsG', {'Faults': 'F_AddP'}),
-             ('W_JobFails', 'WOpsD', {'Faults': 'F_Unsub'})]
+             ('W_JobFails', 'WOpsD', {'Faults': 'F_Unsub'}),
+             # a positioned client-side subscribe answered with an error reply after its presence was added
+             ('W_HistFailsCS', 'WOpsF', {'Faults': 'F_Hist'})]
 
 
 def mk(prop):
